@@ -1034,9 +1034,12 @@ impl<'input, T: Input> Scanner<'input, T> {
         let start_mark = self.mark;
         let mut string = String::new();
 
-        let n_chars = self.input.fetch_while_is_alpha(&mut string);
-        self.mark.index += n_chars;
-        self.mark.col += n_chars;
+        // A directive name is any run of non-space characters (`ns-char+`): the names of
+        // reserved directives are not limited to letters, digits, `-` and `_`.
+        while !is_blank_or_breakz(self.input.look_ch()) {
+            string.push(self.input.peek());
+            self.skip_non_blank();
+        }
 
         if string.is_empty() {
             return Err(ScanError::new_str(
